@@ -18,6 +18,7 @@ pub struct Weights {
     pub remove: u32,
     pub strip: u32,
     pub unique_root: u32,
+    pub clear_slots: u32,
     pub downgrade: u32,
     pub clone_weak: u32,
     pub drop_weak: u32,
@@ -45,6 +46,7 @@ impl Weights {
             remove: 7,
             strip: 2,
             unique_root: 1,
+            clear_slots: 2,
             downgrade: 5,
             clone_weak: 2,
             drop_weak: 3,
@@ -114,6 +116,7 @@ fn plain_op(wt: &Weights) -> BoxedStrategy<Op> {
         ),
         (wt.strip, (s(), any::<bool>(), any::<bool>()).prop_map(|(target, unadopt, keep)| Op::StripHandlesTo { target, unadopt, keep }).boxed()),
         (wt.unique_root, s().prop_map(Op::UniqueRoot).boxed()),
+        (wt.clear_slots, (s(), 0u8..3, any::<bool>(), any::<bool>()).prop_map(|(owner, leave, unadopt, keep)| Op::ClearSlots { owner, leave, unadopt, keep }).boxed()),
         (wt.downgrade, s().prop_map(Op::Downgrade).boxed()),
         (wt.clone_weak, s().prop_map(Op::CloneWeak).boxed()),
         (wt.drop_weak, s().prop_map(Op::DropWeak).boxed()),
@@ -199,7 +202,7 @@ fn op(g: &GenCfg) -> BoxedStrategy<Op> {
     let wn = g.weights.new;
     let total: u32 = {
         let w = &g.weights;
-        w.new + w.clone + w.drop + w.drop_closure + w.store + w.adopt_slot + w.unadopt + w.loopback + w.remove + w.strip + w.unique_root + w.downgrade + w.clone_weak + w.drop_weak + w.upgrade + w.store_weak + w.remove_weak + w.weak_new + w.probe + w.consume * 15
+        w.new + w.clone + w.drop + w.drop_closure + w.store + w.adopt_slot + w.unadopt + w.loopback + w.remove + w.strip + w.unique_root + w.clear_slots + w.downgrade + w.clone_weak + w.drop_weak + w.upgrade + w.store_weak + w.remove_weak + w.weak_new + w.probe + w.consume * 15
     };
     let mut wt = g.weights.clone();
     wt.new = 0;
@@ -239,6 +242,7 @@ fn shape(max_n: usize) -> BoxedStrategy<Shape> {
         6 => (1..=mx, vec((any::<u8>(), any::<u8>()), 0..10)).prop_map(|(n, edges)| Shape::Random { n, edges }),
         2 => (9usize..=36, vec((any::<u8>(), any::<u8>()), 0..6)).prop_map(|(n, chords)| Shape::Big { n, chords }),
         2 => (3usize..=36, any::<bool>()).prop_map(|(n, back)| Shape::Star { n, back }),
+        2 => (29usize..=40, 0u8..4).prop_map(|(n, b)| Shape::Star { n, back: b == 0 }),
     ]
     .boxed()
 }
